@@ -96,6 +96,13 @@ func c17BaseDocOps(r *sim.Rand, slot int, multiHF bool) []sim.Op {
 	if r.Chance(0.4) {
 		ops = append(ops, ph("{{#image pic}}"))
 	}
+	if r.Chance(0.3) {
+		// a table whose middle row is a loop over a list of the data, in some documents with a nested table in a cell of that row
+		ops = append(ops, sim.Op{K: "t.new", D: slot, I: []int{3, 3, 6000, 0, 1}, S: []sim.Str{"Item", "Qty", "Note", "{{#each items}}{{f1}}", "{{qty}} pcs", "{{f2}}{{/each}}", "Total", "", "end"}})
+		if r.Bool() {
+			ops = append(ops, sim.Op{K: "t.nested", D: slot, I: []int{-1, 1, 1, 1, 2, 2000, 0, 1}, S: []sim.Str{"{{label}} nested", "for {{name}}"}})
+		}
+	}
 	ops = append(ops, g.DocOps(slot, r.Range(0, 3))...)
 	return ops
 }
